@@ -7,10 +7,10 @@
  "unwind": 9,
  "replace_calls": {"rawnext": "stub_rawnext", "expand": "stub_expand", "stringize": "rec_stringize"},
  "variants": {"p0": ["-DV_NP=0", "-DV_VAR=0", "-DV_STR=0"], "p1": ["-DV_NP=1", "-DV_VAR=0", "-DV_STR=0"], "p2": ["-DV_NP=2", "-DV_VAR=0", "-DV_STR=0"],
-              "p2var": ["-DV_NP=2", "-DV_VAR=1", "-DV_STR=0"], "p1var": ["-DV_NP=1", "-DV_VAR=1", "-DV_STR=0"], "p2str": ["-DV_NP=2", "-DV_VAR=0", "-DV_STR=1"]},
+              "p2var": ["-DV_NP=2", "-DV_VAR=1", "-DV_STR=0"], "p1var": ["-DV_NP=1", "-DV_VAR=1", "-DV_STR=0"], "p2str": ["-DV_NP=2", "-DV_VAR=0", "-DV_STR=1"], "p1nl": ["-DV_NP=1", "-DV_VAR=0", "-DV_STR=0", "-DV_NL=1"]},
  "tiers": {"thorough": {"cflags": ["-DNS=8"], "unwind": 11, "timeout": 1800, "bound": "as quick with up to 8 tokens"}},
  "kind": "bounded",
- "bound": "the tokens after the '(' of one invocation: up to 6 tokens drawn from {number, ',', '(', ')'} then end of file; macros with 0, 1 or 2 parameters, the last optionally `...`, the first optionally stringized; no macro invocation inside the arguments (expand() answers `not replaced`, so the expansion depth is constant)",
+ "bound": "the tokens after the '(' of one invocation: up to 6 tokens drawn from {number, ',', '(', ')'} (variant p1nl: {number, new-line, ')'}) then end of file; macros with 0, 1 or 2 parameters, the last optionally `...`, the first optionally stringized; no macro invocation inside the arguments (expand() answers `not replaced`, so the expansion depth is constant)",
  "timeout": 600, "replay": false,
  "assumes": ["rawnext() is a token-script stand-in; stringize() is replaced by a recorder (PP.stringize proves the spelling); arrayaddbuf() is a fixed-capacity append (UTIL.arrayaddbuf); xreallocarray() hands out a static array (UTIL.xreallocarray)"]
 }
@@ -22,6 +22,9 @@
 struct token tok;
 extern int g_no_error;
 
+#ifndef V_NL
+#define V_NL 0
+#endif
 #ifndef NS
 #define NS 6
 #endif
@@ -72,7 +75,11 @@ harness(void)
 	{ IN(int, in_k6); IN(int, in_k7); k[6] = in_k6; k[7] = in_k7; }
 #endif
 	for (i = 0; i < NS; i++) {
+#if V_NL
+		__CPROVER_assume(k[i] == TNUMBER || k[i] == TNEWLINE || k[i] == TRPAREN);
+#else
 		__CPROVER_assume(k[i] == TNUMBER || k[i] == TCOMMA || k[i] == TLPAREN || k[i] == TRPAREN);
+#endif
 		script[i].kind = i < in_n ? k[i] : TEOF; script[i].loc.col = i; script[i].lit = 0; script[i].space = false; script[i].hide = false;
 	}
 	script[NS].kind = TEOF; script[NS].loc.col = NS; script[NS + 1].kind = TEOF; script[NS + 1].loc.col = NS + 1;
@@ -106,6 +113,24 @@ harness(void)
 		__CPROVER_assume(wf);
 	}
 	__CPROVER_assert(s_pos == end + 1, "the invocation ends at the parenthesis matching the opening one: exactly the tokens up to it are consumed");
+#if V_NL
+	{
+		/* 6.10.3p10: "Within the sequence of preprocessing tokens making up an invocation of a function-like macro, new-line is
+		   considered a normal white-space character": it is not a token of the argument; the token after it is preceded by white space */
+		unsigned j = 0; bool ws = false;
+		for (i = 0; i < NS; i++)
+			if (i < end) {
+				if (k[i] == TNEWLINE) ws = true;
+				else {
+					__CPROVER_assert(j < mac.arg[0].ntoken && mac.arg[0].token[j].loc.col == i && mac.arg[0].token[j].kind == TNUMBER, "the argument consists of its preprocessing tokens, new-lines not among them");
+					__CPROVER_assert(!ws || mac.arg[0].token[j].space, "a token that follows a new-line is recorded as preceded by white space");
+					j++; ws = false;
+				}
+			}
+		__CPROVER_assert(mac.arg[0].ntoken == j, "and of nothing else");
+		return;
+	}
+#endif
 	__CPROVER_assert(mac.arg == argbuf, "the arguments are attached to the macro");
 	for (i = 0; i < 2; i++)
 		if (i < np) {
